@@ -205,8 +205,8 @@ u64 decode(const std::byte* p, std::size_t n) noexcept {
 }
 
 // ----------------------------------------------------------------------- history
-enum : int { K_INSERT = vl::INSERT, K_REMOVE = vl::REMOVE, K_GET = vl::GET, K_EMPTY = 3, K_SCAN = 4, K_CLEAR = 5 };
-const char* const kNames[] = {"insert", "remove", "get", "empty", "scan", "clear"};
+enum : int { K_INSERT = vl::INSERT, K_REMOVE = vl::REMOVE, K_GET = vl::GET, K_EMPTY = 3, K_SCAN = 4, K_CLEAR = 5, K_STATS = 6 };
+const char* const kNames[] = {"insert", "remove", "get", "empty", "scan", "clear", "statistics"};
 
 struct planned { int kind; int key; };
 
@@ -372,6 +372,32 @@ void run_worker(round_ctx& rc, worker& w) {
         lib_leave(); r.ret = stamp();
         check_held(w, "empty", 0, true);
         break;
+      case K_STATS: {
+        // the statistics accessors are operations of the mutex index too: each must return a snapshot of one moment.
+        // Whatever the interleaving, a tree of <= 1 leaves has no inner node and one of >= 2 leaves has at least one,
+        // and no counter of a snapshot exceeds what the key space allows (TSan judges the accesses themselves).
+#ifdef UNODB_DETAIL_WITH_STATS
+        r.call = stamp(); lib_enter();
+        const auto nc = rc.db.get_node_counts();
+        lib_leave();
+        check_held(w, "get_node_counts", 0, true);
+        lib_enter();
+        const auto gc = rc.db.get_growing_inode_counts();
+        const auto sc = rc.db.get_shrinking_inode_counts();
+        const auto mem = rc.db.get_current_memory_use();
+        const auto sp = rc.db.get_key_prefix_splits();
+        lib_leave(); r.ret = stamp();
+        check_held(w, "statistics", 0, true);
+        const auto inner = nc[1] + nc[2] + nc[3] + nc[4];
+        if ((nc[0] <= 1 && inner != 0) || (nc[0] >= 2 && inner == 0) || nc[0] > rc.keys.size() || inner > rc.keys.size())
+          w.viol.emplace_back("mutex_lin/statistics/impossible-snapshot", "get_node_counts() returned a combination of counters no single state of the index has (leaves=" + std::to_string(nc[0]) + ", inner=" + std::to_string(inner) + ")");
+        (void)gc; (void)sc; (void)sp; (void)mem;  // separate calls: not comparable with nc
+#else
+        r.call = stamp(); r.ret = stamp();
+#endif
+        r.ok = true;
+        break;
+      }
       case K_CLEAR:
         r.call = stamp(); lib_enter();
         rc.db.clear();
@@ -469,7 +495,7 @@ void make_plans(round_ctx& rc, vh::rng& r) {
     for (u64 i = 0; i < n; ++i) {
       const u64 x = r.below(100);
       planned p{};
-      p.kind = x < 28 ? K_INSERT : x < 52 ? K_REMOVE : x < 85 ? K_GET : x < 93 ? K_EMPTY : x < 97 ? K_SCAN : K_CLEAR;
+      p.kind = x < 28 ? K_INSERT : x < 52 ? K_REMOVE : x < 83 ? K_GET : x < 91 ? K_EMPTY : x < 95 ? K_SCAN : x < 98 ? K_CLEAR : K_STATS;
       p.key = p.kind >= K_EMPTY ? -1 : r.chance(hot_p) ? hot : static_cast<int>(r.below(rc.nactive));
       w->plan.push_back(p);
     }
@@ -647,7 +673,7 @@ void evaluate(round_ctx& rc, u64 c) {
   rep().count("rounds");
   rep().count("ops", nworker_ops);
   rep().count("snapshot_ops", all.size() - nworker_ops);
-  u64 cnt[10] = {};
+  u64 cnt[11] = {};
   for (std::size_t i = 0; i < nworker_ops; ++i) {
     const rec& o = *all[i];
     switch (o.kind) {
@@ -656,11 +682,12 @@ void evaluate(round_ctx& rc, u64 c) {
       case K_GET: ++cnt[o.ok ? 4 : 5]; break;
       case K_EMPTY: ++cnt[6]; if (o.ok) ++cnt[7]; break;
       case K_CLEAR: ++cnt[9]; break;
+      case K_STATS: ++cnt[10]; break;
       default: ++cnt[8];
     }
   }
-  static const char* const cn[10] = {"inserts_ok", "inserts_dup", "removes_ok", "removes_absent", "gets_hit", "gets_miss", "empty_calls", "empty_true", "scans", "clears"};
-  for (int i = 0; i < 10; ++i) rep().count(cn[i], cnt[i]);
+  static const char* const cn[11] = {"inserts_ok", "inserts_dup", "removes_ok", "removes_absent", "gets_hit", "gets_miss", "empty_calls", "empty_true", "scans", "clears", "statistics_calls"};
+  for (int i = 0; i < 11; ++i) rep().count(cn[i], cnt[i]);
   rep().count("overlapping_pairs", overlap_pairs);
   rep().count("blocked_behind_hold", blocked);
   rep().count("called_inside_hold", called_inside);
